@@ -354,6 +354,15 @@ def check_pair(res, drv, orb, A, B, modes=("deterministic",), seed=0, deep=True,
         elif kind in ("seq", "find"):
             seq, serr = data
             want = f"err {serr}" if serr is not None else f"ok seq={gu.seq_str(seq)}"
+            if kind == "find" and rep["_raw"] != want and serr is None and np.array_equal(gu.apply_seq_ref(A, seq), np.asarray(B)):
+                # region of known finding D42 (the model mirrors the defect): if the implementation now builds the R matrix
+                # from the first graph it must agree with the model of the repaired function — noted, no alarm (DESIGN §6)
+                rep2 = drv.ask(f"lc.find {inp['a']} {inp['b']} mode=det fuel={FUEL} fixed=1")
+                if rep2["_raw"] == want:
+                    if K_FIND_LC not in res.known_gone:
+                        res.known_gone.append(K_FIND_LC)
+                    res.traces_validated += 1
+                    continue
             if rep["_raw"] != want:
                 res.exact_break(f"lc.{kind}", input=inp, impl=want, model=rep["_raw"][:300])
             else:
